@@ -256,6 +256,23 @@ pub fn unix_path(seed: u32) -> Vec<u8> {
         }
         return p;
     }
+    if seed % 8 == 4 && seed < 0xffff_fff0 {
+        // names from other systems (drive letters and backslashes, a pipe name, blanks, escapes), NUL-terminated, zeros or
+        // non-zero bytes behind the terminator
+        const OTHER: [&str; 8] = ["C:\\ProgramData\\app\\proxy.sock", "c:\\temp\\s", "D:\\", "\\\\.\\pipe\\haproxy", "/var/run/my app.sock", "/run/%2e%2e/x.sock", "z:\\a\\b\\c\\d.sock", "/run/a\\b.sock"];
+        let name = OTHER[(seed as usize / 8) % OTHER.len()].as_bytes();
+        let garbage = (seed / 64) % 2 == 1;
+        for (i, b) in p.iter_mut().enumerate() {
+            if i < name.len() {
+                *b = name[i];
+            } else if i == name.len() || !garbage {
+                *b = 0;
+            } else if *b == 0 {
+                *b = 1;
+            }
+        }
+        return p;
+    }
     if seed % 8 == 2 && seed < 0xffff_fff0 {
         let n = 1 + (seed as usize / 8) % 40;
         for (i, b) in p.iter_mut().enumerate() {
